@@ -103,6 +103,19 @@ def sis_scenarios(seed, n_random, sizes=(2, 3, 4), unsorted_frac=0.0):
             delay.append(row)
         tmin = rng.choice([0, 0, 500])
         tmax = tmin + rng.randint(1200, 4200)
+        if rng.random() < 0.3:
+            # a horizon that coincides with an event: the first attempt of an initially infected node on a susceptible
+            # neighbour (an infection at exactly tmax), possibly plus that neighbour's duration (a recovery at exactly tmax)
+            cands = []
+            for u in range(n):
+                if init[u] == "I":
+                    for v in range(n):
+                        if init[v] == "S" and delay[u][v][0]:
+                            cands.append(min(delay[u][v][0]))
+                            cands.append(min(delay[u][v][0]) + dur[v][0])
+                    cands.append(dur[u][0])
+            if cands:
+                tmax = tmin + rng.choice(cands)
         srt = 1
         for u in range(n):
             for v in range(n):
